@@ -125,10 +125,18 @@ def _offers_json(offers: list[dict]) -> list[dict]:
 
 def build_log_items(tier: str, seed: int) -> tuple[list[dict], list[dict]]:
     items, meta = [], []
-    for i, offers in enumerate(X.synthetic_sessions(tier, seed)):
+    synth = X.synthetic_sessions(tier, seed)
+    for i, offers in enumerate(synth):
         items.append(X.log_session(offers))
         meta.append({"name": f"synthetic#{i}", "offers": _offers_json(offers) if len(offers) <= 4 else None, "synthetic": i,
                      "tier": tier, "seed": seed, "site": "pktlog"})
+    # the same sessions with the packets built by the Packet constructor itself (annotations passed as keywords):
+    # such a packet exists whatever the text of its comment, so the written log must replay it
+    for i, offers in enumerate(synth):
+        if i % 3 == 0 or len(offers) == 1:
+            items.append(X.log_session(offers, via="ctor"))
+            meta.append({"name": f"synthetic-ctor#{i}", "offers": _offers_json(offers) if len(offers) <= 4 else None,
+                         "synthetic": i, "via": "ctor", "tier": tier, "seed": seed, "site": "pktlog"})
     logs = sorted(glob.glob("/repo/tests/tests/**/*.log", recursive=True))
     if tier != "thorough":
         logs = [p for p in logs if os.path.getsize(p) < 200_000][:12]
@@ -163,9 +171,10 @@ def replay(path: str) -> None:
         elif rp.get("path"):
             item = X.real_log_session(rp["path"])
         elif rp.get("offers"):
-            item = X.log_session([dict(o, dtm=dt.fromisoformat(o["dtm"])) for o in rp["offers"]])
+            item = X.log_session([dict(o, dtm=dt.fromisoformat(o["dtm"])) for o in rp["offers"]], via=rp.get("via", "port"))
         else:
-            item = X.log_session(X.synthetic_sessions(rp.get("tier", "quick"), rp.get("seed", 0))[rp["synthetic"]])
+            item = X.log_session(X.synthetic_sessions(rp.get("tier", "quick"), rp.get("seed", 0))[rp["synthetic"]],
+                                 via=rp.get("via", "port"))
         print(f"replay log session {rp['name']}: {len(item['written'])} offered, {sum(w['acc'] for w in item['written'])} accepted, "
               f"{len(item['lines'])} lines written, {len(item['replayed'])} replayed")
         res = judge_logs([item], 1)
